@@ -23,6 +23,29 @@ static std::vector<std::vector<uint64_t>> run_ndmap(const std::vector<uint64_t> 
     return out;
 }
 
+// a box far too large to traverse: the callback stops the traversal (by throwing) after `limit' invocations
+struct stop_traversal {};
+template <std::size_t N>
+static std::vector<std::vector<uint64_t>> run_prefix(const std::vector<uint64_t> & ext, std::size_t limit, bool & returned) {
+    using T = covfie::array::array<std::size_t, N>;
+    T s;
+    for (std::size_t k = 0; k < N; ++k) s[k] = ext[k];
+    std::vector<std::vector<uint64_t>> out;
+    returned = false;
+    try {
+        covfie::utility::nd_map<T>(
+            [&out, limit](T t) {
+                std::vector<uint64_t> v;
+                for (std::size_t k = 0; k < N; ++k) v.push_back(t[k]);
+                out.push_back(v);
+                if (out.size() >= limit) throw stop_traversal{};
+            },
+            s);
+        returned = true;
+    } catch (const stop_traversal &) {}
+    return out;
+}
+
 static std::vector<std::vector<uint64_t>> run_any(const std::vector<uint64_t> & ext) {
     switch (ext.size()) {
         case 1: return run_ndmap<1>(ext);
@@ -107,6 +130,19 @@ int main(int argc, char ** argv) {
             events += 2 + (long)got.size(); ++g_cases;
         };
         narrow(uint8_t{}, {16, 16}); narrow(uint8_t{}, {8, 4, 8}); narrow(uint8_t{}, {32, 16});
+        // boxes of 2^31 .. 2^33 cells (volumes that are multiples of 2^32 among them): the first 1500 invocations must happen,
+        // name distinct tuples of the box, and nd_map must not return before them
+        auto huge = [&](std::vector<uint64_t> ext) {
+            bool returned = false;
+            std::vector<std::vector<uint64_t>> got;
+            switch (ext.size()) { case 2: got = run_prefix<2>(ext, 1500, returned); break; case 3: got = run_prefix<3>(ext, 1500, returned); break;
+                                  case 4: got = run_prefix<4>(ext, 1500, returned); break; default: got = run_prefix<5>(ext, 1500, returned); }
+            out << json({{"e", "Begin"}, {"ext", ext}}).dump() << "\n";
+            for (auto & t : got) out << json({{"e", "Visit"}, {"t", t}}).dump() << "\n";
+            out << json({{"e", "Stopped"}, {"k", got.size()}, {"returned", returned}}).dump() << "\n";
+            events += 2 + (long)got.size(); ++g_cases;
+        };
+        huge({65536, 65536}); huge({1u << 30, 4}); huge({3, 1u << 20, 1u << 12}); huge({128, 128, 64, 64, 64}); huge({65536, 65537}); huge({7, 1u << 15, 1u << 15, 3});
         summary({{"events", events}});
     }
     return 0;
